@@ -46,7 +46,7 @@ CLAIMED = {
              "that the descriptor is (physical start, length), and on the read side, for ANY device content/validity and ANY descriptor, that Ok(m) "
              "implies m = length and the bytes are exactly the logical stream from valid pages; no panic on any path.",
         note="The page layer is represented by its contracts, which C11 decides on the real PagedWriter/PagedReader MIR (assume-guarantee). Trusted: "
-             "mirsym interpreter + std models (io::copy, Take, read_exact, write_all), z3. Image/mask association and XML are outside.",
+             "mirsym interpreter + std models (io::copy, Take, read_exact, write_all), z3. Image and mask descriptors are decided on the in-memory Image values (ImageWriter MIR); XML is outside.",
         technique="symbolic execution of rustc MIR into SMT (z3) from arbitrary abstract states, per-path claims, native replay of counterexamples",
         ref="§6 C06"),
     "C02": dict(
